@@ -15,6 +15,7 @@ import sys
 import time
 
 P, K = sys.argv[1], sys.argv[2]
+VDIR = os.environ.get('VERIF_DIR', '/verif')
 skip_suite = '--skip-suite' in sys.argv
 src = '/tmp/seed/%s/out/%s' % (P, K)
 dst = '/verif/seeded/%s-%s' % (P, K)
@@ -57,7 +58,7 @@ try:
         meta['suite_tail'] = r3.stdout.strip().split('\n')[-1]
         meta['suite_new_failures'] = new_fail
     t0 = time.time()
-    r4 = sh('cd /verif && VERIF_REPO=%s timeout 3000 ./check %s --tier quick' % (wt, P))
+    r4 = sh('cd %s && VERIF_REPO=%s timeout 3000 ./check %s --tier quick' % (VDIR, wt, P))
     meta['check_exit_on_changed'] = r4.returncode
     meta['check_wall_s'] = round(time.time() - t0, 1)
     vio = [l for l in r4.stdout.split('\n') if l.startswith('VIOLATION')]
@@ -77,7 +78,7 @@ try:
 finally:
     sh('git -C /repo worktree remove --force %s' % wt)
     # restore the build state for the clean tree
-    r5 = sh('cd /verif && timeout 3000 ./check %s --tier quick' % P)
+    r5 = sh('cd %s && timeout 3000 ./check %s --tier quick' % (VDIR, P))
     meta['check_exit_on_clean_after'] = r5.returncode
 os.makedirs(dst, exist_ok=True)
 for f in ('patch.diff', 'demo.py', 'notes.md'):
